@@ -117,7 +117,8 @@ class Program:
         `raw_body` gives the function exactly as compiled."""
         if key not in self._bodies:
             plumb = self.plumbing_fns()
-            if plumb and key not in plumb and any(self._calls_any(key, plumb)):
+            from .inline import has_for_each
+            if (plumb and key not in plumb and any(self._calls_any(key, plumb))) or has_for_each(self.fns[key]["mir"]):
                 from .inline import inlined_body
                 self._bodies[key] = inlined_body(self, key, stop=lambda g: g not in plumb, maxdepth=3)
             else:
